@@ -92,6 +92,9 @@ def _rng_array(seed: int, n: int, typ: str, raw: bool = False) -> np.ndarray:
     """raw=True: the float64 data a user would assign (for a float32 field it is NOT exactly representable);
     raw=False: the same data cast to the field type = what the store must return."""
     rng = np.random.default_rng(seed)
+    if seed % 9 == 0:
+        # an array that is zero at every point (a species that is tracked but not emitted on this flight)
+        return np.zeros(n, dtype=float if (raw and typ in ('f8', 'f4')) else NPTYPE[typ])
     if typ in ('f8', 'f4'):
         a = rng.normal(0.0, 1000.0, size=n)
         if n > 0:
@@ -209,6 +212,17 @@ def traj_desc(draw, fdefs=(), n_range=(1, 130), identified=None, species_pool=No
     return d
 
 
+def values_for(desc: dict, fdef: dict):
+    """The value descriptions of one field set; an 'auto' field set (scalars only) derives them from the trajectory's
+    seed when the description does not carry them."""
+    vals = desc['extras'].get(fs_name(fdef))
+    if vals is None:
+        if not fdef.get('auto'):
+            raise KeyError(fs_name(fdef))
+        vals = [{'v': float(desc['seed'] % 1000) + 0.25 + k} for k, _ in enumerate(fdef['fields'])]
+    return vals
+
+
 def desc_species(desc: dict) -> set[str]:
     out = set()
     for vals in desc['extras'].values():
@@ -289,7 +303,7 @@ def expected_traj(desc: dict, fdefs=()) -> dict:
     out['flight_id'] = desc['flight_id']
     out['name'] = desc['name']
     for fdef in fdefs:
-        vals = desc['extras'][fs_name(fdef)]
+        vals = values_for(desc, fdef)
         for fname, f, v in zip(field_names(fdef), fdef['fields'], vals):
             out[fname] = expected_field(f, v, n)
     return out
@@ -342,7 +356,7 @@ def build_traj(desc: dict, fdefs=(), skip_fieldsets=()):
     for fd in fdefs:
         if fs_name(fd) in skip_fieldsets:
             continue
-        vals = desc['extras'][fs_name(fd)]
+        vals = values_for(desc, fd)
         for fname, f, v in zip(field_names(fd), fd['fields'], vals):
             if v.get('unset') == 'never':
                 continue
